@@ -24,10 +24,11 @@ let () =
           | [x; y] ->
             let (vx, kx) = node (int_of_string x) and (vy, ky) = node (int_of_string y) in
             let keep_nc v = (match v with VComment _ -> false | _ -> true) in
-            Printf.sprintf "%d:de=%s;rev=%s;dec=%s;dex=%s;dexci=%s;adexp=%s;adenc=%s;se=%s;sei=%s;svx=%s;svy=%s" pi
+            Printf.sprintf "%d:de=%s;rev=%s;dec=%s;dex=%s;dexci=%s;adexp=%s;adenc=%s;adeall=%s;se=%s;sei=%s;svx=%s;svy=%s" pi
               (b01 (deep_equal vx kx vy ky)) (b01 (deep_equal vy ky vx kx)) (b01 (deep_equal_children kx ky))
               (b01 (deep_equal_xpath tc_exact vx kx vy ky)) (b01 (deep_equal_xpath tc_ci vx kx vy ky))
               (b01 (advanced_deep_equal tc_exact keep_xpath vx kx vy ky)) (b01 (advanced_deep_equal tc_ci keep_nc vx kx vy ky))
+              (b01 (advanced_deep_equal tc_ci (fun _ -> true) vx kx vy ky))
               (b01 (shallow_equal vx kx vy ky))
               (String.concat "" (L.map (fun ig -> b01 (shallow_equal_ignore ig vx kx vy ky)) igs))
               (enc_str (string_value ns_str vx kx)) (enc_str (string_value ns_str vy ky))
